@@ -1,6 +1,7 @@
 package main
 
 import (
+	"fmt"
 	"go/constant"
 	"go/token"
 	"go/types"
@@ -310,6 +311,7 @@ func (x *Exec) builtinExtern(st *State, key string, c *ssa.CallCommon, a []*Val,
 				}
 				st.ghost["$perm"] = &Val{K: VScalar, T: pi}
 				st.ghost["$perminv"] = &Val{K: VScalar, T: inv}
+				x.sortedFact(st, c, a[1], n)
 				return unitVal, true, nil
 			}
 		}
@@ -729,4 +731,53 @@ func (x *Exec) sprintfModel(st *State, c *ssa.CallCommon) (*Val, bool) {
 
 func constantString(c *ssa.Const) string {
 	return constant.StringVal(c.Value)
+}
+
+
+// sortedFact: when the less-closure has a contract `ensures result <==> E(i, j)`, the sorted slice satisfies
+// forall i < j < n: !E(j, i) (no later element is strictly less than an earlier one).
+func (x *Exec) sortedFact(st *State, c *ssa.CallCommon, lessVal *Val, n *Term) {
+	if lessVal == nil || lessVal.K != VClosure || lessVal.Clo.Fn == nil {
+		return
+	}
+	key := x.P.funcKey(lessVal.Clo.Fn)
+	fc := x.C.Funcs[key]
+	if fc == nil || len(fc.Ensures) == 0 {
+		x.assumptions["sort.Slice: the less closure "+key+" has no contract, so the resulting order is unconstrained"] = true
+		return
+	}
+	f := lessVal.Clo.Fn
+	if len(f.Params) != 2 {
+		return
+	}
+	var body *Expr
+	for _, e := range fc.Ensures {
+		if e.E.Kind == "binary" && e.E.Name == "<==>" && e.E.Args[0].Kind == "ident" && e.E.Args[0].Name == "result" {
+			body = e.E.Args[1]
+		}
+	}
+	if body == nil {
+		return
+	}
+	x.bvN++
+	bi := &Term{Op: fmt.Sprintf("i!srt%d", x.bvN), S: SInt}
+	bj := &Term{Op: fmt.Sprintf("j!srt%d", x.bvN), S: SInt}
+	vars := map[string]*Val{f.Params[0].Name(): intVal(bj), f.Params[1].Name(): intVal(bi)} // E(j, i)
+	for k, fv := range f.FreeVars {
+		if k < len(lessVal.Clo.Bindings) {
+			b := lessVal.Clo.Bindings[k]
+			if b.K == VPath && b.Path.Cell != nil {
+				vars[fv.Name()] = retypeIfNil(x.loadPath(st, b.Path), fv.Type().(*types.Pointer).Elem())
+			}
+		}
+	}
+	ctx := &SpecCtx{st: st, old: st, vars: vars, pkg: fc.Pkg, locals: false, quantDepth: 1}
+	t, err := x.specBool(ctx, body)
+	if err != nil {
+		x.assumptions["sort.Slice: could not use the contract of "+key+": "+err.Error()] = true
+		return
+	}
+	x.usedContracts[key] = true
+	x.assume(st, tForall([]*Term{bi, bj}, tImp(tAnd(tCmp("<=", intLit(0), bi), tCmp("<", bi, bj), tCmp("<", bj, n)), tNot(t))))
+	x.assumptions["sort.Slice returns the slice sorted w.r.t. its less function (assumed; the less closure's contract is proved)"] = true
 }
